@@ -630,18 +630,36 @@ class RulesSuite(common.Suite):
             (tmp / "dep").mkdir(exist_ok=True)
             for sc in all_deps(case):
                 (tmp / "dep" / (dep_name(sc) + ".1.0.dsdl")).write_text(dep_text(sc))
-            try:
-                r = pydsdl.read_namespace(tmp / h["ns"][0], [tmp / "dep"], allow_unregulated_fixed_port_id=bool(h["allow"]))
-                full = ".".join(h["ns"] + [h["short"]])
-                if not any(t.full_name == full and (t.version.major, t.version.minor) == (h["major"], h["minor"]) and t.fixed_port_id == h["port"] for t in r):
-                    return {"res": "foreign:not-in-result", "soft_msg": str([str(t) for t in r])[:200]}
-                return {"res": "ok"}
-            except pydsdl.InvalidDefinitionError as ex:
-                return {"res": "invalid", "soft_cls": type(ex).__name__, "soft_msg": str(ex.text)[:160]}
-            except pydsdl.InternalError as ex:
-                return {"res": "internal", "soft_msg": str(ex)[:160]}
-            except Exception as ex:  # pylint: disable=broad-except
-                return {"res": "foreign:" + type(ex).__name__, "soft_msg": str(ex)[:200]}
+            def read_once() -> dict:
+                try:
+                    r = pydsdl.read_namespace(tmp / h["ns"][0], [tmp / "dep"], allow_unregulated_fixed_port_id=bool(h["allow"]))
+                    full = ".".join(h["ns"] + [h["short"]])
+                    if not any(t.full_name == full and (t.version.major, t.version.minor) == (h["major"], h["minor"]) and t.fixed_port_id == h["port"] for t in r):
+                        return {"res": "foreign:not-in-result", "soft_msg": str([str(t) for t in r])[:200]}
+                    return {"res": "ok"}
+                except pydsdl.InvalidDefinitionError as ex:
+                    return {"res": "invalid", "soft_cls": type(ex).__name__, "soft_msg": str(ex.text)[:160]}
+                except pydsdl.InternalError as ex:
+                    return {"res": "internal", "soft_msg": str(ex)[:160]}
+                except Exception as ex:  # pylint: disable=broad-except
+                    return {"res": "foreign:" + type(ex).__name__, "soft_msg": str(ex)[:200]}
+
+            out = read_once()
+            # The same definition, but FIRST REACHED AS A DEPENDENCY: a sibling that sorts before it refers to it.
+            # The rules apply to the definition whichever way it is reached, so the verdict must not change.
+            # (Only for message types with a plain ASCII identity; a service cannot be a field type.)
+            service = any(s[0] == "marker" for s in case["stmts"])
+            ident = h["ns"] + [h["short"]]
+            if out["res"] in ("ok", "invalid") and not service and all(c.isascii() and c.isidentifier() for c in ident) and len(h["ns"]) >= 1:
+                deprecated = any(s[0] == "deprecated" for s in case["stmts"])
+                ref = tmp / "/".join(h["ns"] + ["A0a.1.0.dsdl"])
+                if not ref.exists() and h["short"] > "A0a" and len(".".join(h["ns"] + ["A0a"])) <= 255:
+                    ref.write_text("%s%s.%d.%d r\n@sealed\n" % ("@deprecated\n" if deprecated else "", ".".join(ident), h["major"], h["minor"]))
+                    again = read_once()
+                    ref.unlink()
+                    if again["res"] != out["res"]:
+                        out["via_dependency"] = again["res"]
+            return out
         finally:
             shutil.rmtree(tmp, ignore_errors=True)
 
@@ -656,6 +674,8 @@ class RulesSuite(common.Suite):
     def oracle(self, case, impl, prop):
         ok, why = rules_ok(case)
         res = impl.get("res")
+        if "via_dependency" in impl:
+            return "verdict-depends-on-reach: read on its own the definition is %s, first reached as a dependency of a sibling it is %s" % (res, impl["via_dependency"])
         if ok and res != "ok":
             return "valid-rejected: a definition that obeys every static rule is not accepted: %s %s" % (res, impl.get("soft_cls") or impl.get("soft_msg"))
         if not ok and res == "ok":
